@@ -113,18 +113,29 @@ def execute(args):
         t.join = lambda timeout=None: None          # ReaderThread.close() joins the reader thread, which the harness plays itself
         return t
 
+    def reconnect(transport=None):
+        events.append({"a": "reconnect", "c": 0, "m": 0, "who": who()})
+        state["kpend"] += 1
+
+    class InlineThread:
+        """threading.Thread as seen from mysensors.transport: the real SyncTransport.connect() runs (it is the protocol's
+        reconnect callback); the connect thread it starts only files the request for the scenario's connector actor."""
+        def __init__(self, target=None, args=(), **kw):
+            self.target, self.args = target, args
+
+        def start(self):
+            self.target(*self.args)
+    import threading as _threading
+    import types as _types
+    TR.threading = _types.SimpleNamespace(Thread=InlineThread, Lock=_threading.Lock, Event=_threading.Event)
     gw = mysensors.Gateway()
-    tr = TR.SyncTransport(gw, lambda t: None)
+    tr = TR.SyncTransport(gw, reconnect)
     tr._lock = SLock()
     gw.tasks = TASK.SyncTasks(gw.const, False, None, gw.sensors, tr)
     gw.on_conn_lost = lambda g, e: events.append({"a": "cb_lost", "c": 0, "m": 0, "who": who()})
     proto = tr.protocol
     proto.connection_made(transport_for(Conn(1)))
 
-    def reconnect():
-        events.append({"a": "reconnect", "c": 0, "m": 0, "who": who()})
-        state["kpend"] += 1
-    proto.conn_lost_callback = reconnect
 
     nprod = 2 if name == "plain" else 1
     shares = [list(range(1 + k, nmsgs + 1, nprod)) for k in range(nprod)]
